@@ -1252,7 +1252,12 @@ pub fn generate(prop: &str, rng: &mut Rng, tier: Tier) -> FesProgram {
         drain = false;
     }
     let drop_in_unwind = prop == "C15" && drop_panic.is_none() && !drain && rng.chance(1, 4);
-    let cancel_panic = if payload == "ptok" && rng.chance(1, 2) { Some(rng.below(5) as u32) } else { None };
+    // C01 under the same fault: a payload whose destructor panics when its event is cancelled (the caller catches the
+    // panic): the event is gone, and the queue counts it as gone
+    if prop == "C01" && rng.chance(1, 20) {
+        payload = "ptok".to_string();
+    }
+    let cancel_panic = if payload == "ptok" && (prop == "C01" || rng.chance(1, 2)) { Some(rng.below(5) as u32) } else { None };
     if cancel_panic.is_some() && rng.chance(1, 2) {
         drop_panic = None;
         drain = rng.chance(1, 2);
